@@ -405,7 +405,7 @@ pub fn run(tier: Tier) -> CheckResult {
         }
     }
     // (2) ordered lists of length 2..L over the kinds menu (all orders), names assigned round-robin
-    let max_len = if tier == Tier::Quick { 3 } else { 4 };
+    let max_len = if tier == Tier::Quick { 4 } else { 5 };
     let menu: Vec<PKind> = if tier == Tier::Quick {
         vec![PKind::Value, PKind::Optional, PKind::Channel, PKind::Injected(0), PKind::Injected(4), PKind::Injected(6), PKind::Injected(8), PKind::Injected(10)]
     } else {
@@ -423,7 +423,7 @@ pub fn run(tier: Tier) -> CheckResult {
         }
     }
     for len in 2..=max_len {
-        let m: &[PKind] = if len == 4 { &menu[..8.min(menu.len())] } else { &menu };
+        let m: &[PKind] = if len >= 4 { &menu[..8.min(menu.len())] } else { &menu };
         let mut ls = vec![];
         lists(m, len, &mut vec![], &mut ls);
         for (i, l) in ls.iter().enumerate() {
@@ -492,7 +492,7 @@ pub fn run(tier: Tier) -> CheckResult {
     res.coverage.set("cases", cases.len() as u64);
     res.coverage.set("exhaustive", exhaustive);
     res.coverage.set("samples", json!(cases.iter().step_by((cases.len() / 5).max(1)).take(5).collect::<Vec<_>>()));
-    res.coverage.set("rule", "one command per project; parameter lists: every single parameter kind (value, Option, Channel<T> in 3 spellings, 13 spellings of injected parameters) x 11 names x {default, 6 naming-case settings} x both modes, plus all ordered lists of length 2..3 (quick) / 2..4 (thorough) over the kinds menu; oracle: key sets of the declared parameter type, of the parameter schema and of the object expression reaching invoke (spreads and safeParse results resolved through the parsed AST) equal {case(name) | frontend-filled parameter}, case = heck lowerCamelCase by default (what tauri-macros applies) / serde's field rule for a configured case / the macro's own rename_all argument (#[tauri::command(rename_all = \"snake_case\")], with async / root arguments beside it) before either; omittable iff Option. Non-trivial = accepted and output parsed.");
+    res.coverage.set("rule", "one command per project; parameter lists: every single parameter kind (value, Option, Channel<T> in 3 spellings, 13 spellings of injected parameters) x 11 names x {default, 6 naming-case settings} x both modes, plus all ordered lists of length 2..4 (quick) / 2..5 (thorough) over the kinds menu (lists of four and more over the eight-kind menu); oracle: key sets of the declared parameter type, of the parameter schema and of the object expression reaching invoke (spreads and safeParse results resolved through the parsed AST) equal {case(name) | frontend-filled parameter}, case = heck lowerCamelCase by default (what tauri-macros applies) / serde's field rule for a configured case / the macro's own rename_all argument (#[tauri::command(rename_all = \"snake_case\")], with async / root arguments beside it) before either; omittable iff Option. Non-trivial = accepted and output parsed.");
     res.assumptions = vec!["parameter names are snake_case identifiers (on those heck and serde's camelCase agree)".into()];
     res
 }
